@@ -43,13 +43,13 @@ class PyKdebugParser:
         self.dyld_uuids = []
 
     def kevents(self, kdebug: io.IOBase):
-        return self._kevents(kdebug, self.filter_class, self.filter_subclass)
+        return self._kevents(kdebug, self.filter_tid, self.filter_class, self.filter_subclass)
 
-    def _kevents(self, kdebug: io.IOBase, filter_class, filter_subclass):
+    def _kevents(self, kdebug: io.IOBase, filter_tid, filter_class, filter_subclass):
         events_generator = KdBufParser(self.threads_pids, self.pids_names).parse(kdebug)
         events_generator = filter(lambda e: not isinstance(e, OsLogEvent), events_generator)
-        if self.filter_tid is not None:
-            events_generator = filter(lambda e: e.tid == self.filter_tid, events_generator)
+        if filter_tid is not None:
+            events_generator = filter(lambda e: e.tid == filter_tid, events_generator)
         if filter_class or filter_subclass:
             events_generator = filter(lambda e: self._is_eventid_allowed(e.eventid, filter_class, filter_subclass),
                                       events_generator)
@@ -74,9 +74,14 @@ class PyKdebugParser:
         if add_fs_class:
             filter_class.append(DBG_FSYSTEM)
 
+        # Records of other threads (new thread / exec declarations, global strings) are needed for decoding the requested
+        # thread, so the thread filter is applied to the traces and not to the events.
+        filter_tid = self.filter_tid
         traces_parser = TracesParser(trace_codes_map, self.threads_pids, self.pids_names)
-        trace_generator = traces_parser.feed_generator(self._kevents(kdebug, filter_class, filter_subclass))
+        trace_generator = traces_parser.feed_generator(self._kevents(kdebug, None, filter_class, filter_subclass))
 
+        if filter_tid is not None:
+            trace_generator = filter(lambda t: t.ktraces[0].tid == filter_tid, trace_generator)
         if self.filter_process is not None:
             trace_generator = filter(self._filter_process_callback, trace_generator)
         if add_trace_class:
